@@ -3347,11 +3347,9 @@ func _case(n *node) {
 						}
 						return fnext
 					}
-					if v := val.node; v != nil {
-						for _, typ := range types {
-							if v.typ.id() == typ.id() {
-								return tnext
-							}
+					for _, typ := range types {
+						if matchValueInterface(val, typ) {
+							return tnext
 						}
 					}
 					return fnext
@@ -3406,13 +3404,18 @@ func _case(n *node) {
 					return fnext
 				}
 				if vi, ok := v.Interface().(valueInterface); ok {
-					if vi.node != nil {
-						if vi.node.typ.id() == typ.id() {
-							destValue(f).Set(vi.value)
-							return tnext
-						}
+					if !matchValueInterface(vi, typ) {
+						return fnext
 					}
-					return fnext
+					switch {
+					case typ.cat == nilT:
+					case isInterfaceSrc(typ):
+						// The variable has the interface type of the case.
+						destValue(f).Set(v)
+					default:
+						destValue(f).Set(vi.value)
+					}
+					return tnext
 				}
 				if v.Type() == typ.TypeOf() {
 					destValue(f).Set(v)
@@ -3451,12 +3454,10 @@ func _case(n *node) {
 					return fnext
 				}
 				if vi, ok := val.Interface().(valueInterface); ok {
-					if v := vi.node; v != nil {
-						for _, typ := range types {
-							if v.typ.id() == typ.id() {
-								destValue(f).Set(val)
-								return tnext
-							}
+					for _, typ := range types {
+						if matchValueInterface(vi, typ) {
+							destValue(f).Set(val)
+							return tnext
 						}
 					}
 					return fnext
@@ -3511,6 +3512,24 @@ func _case(n *node) {
 			return fnext
 		}
 	}
+}
+
+// matchValueInterface tells if the value vi of an interpreted interface type matches
+// the type typ of a case of a type switch: nil for the zero value of the interface,
+// the dynamic type of the value, or an interface that the dynamic type implements.
+func matchValueInterface(vi valueInterface, typ *itype) bool {
+	if vi.node == nil || vi.node.kind == basicLit && vi.node.typ.cat == nilT {
+		return typ.cat == nilT
+	}
+	switch {
+	case typ.cat == nilT:
+		return false
+	case vi.node.typ.id() == typ.id():
+		return true
+	case isInterfaceSrc(typ):
+		return vi.node.typ.methods().contains(typ.methods())
+	}
+	return false
 }
 
 func implementsInterface(v reflect.Value, t *itype) bool {
